@@ -253,7 +253,9 @@ def apply_obj(im, e, spec_before):
         n = len(spec_before["images"])
         im.add(e[1], e[2], mk_image(im, imgspec(n, path="%s/%s/iso/img-%d.iso" % (e[1], e[2], n))))
     elif k == "alias":
-        im.add(e[2], e[3], objs_of(e[1])[0])
+        found = objs_of(e[1])
+        # (a pool image that is filed nowhere was not written, so the re-read manifest has no object for it: a new one is made)
+        im.add(e[2], e[3], found[0] if found else mk_image(im, spec_before["images"][e[1]]))
     elif k == "unplace":
         for o in objs_of(e[3]):
             if o in im.images[e[1]][e[2]]:
